@@ -3,6 +3,7 @@ C19 - the bundled template engine is a conservative extension of stock Jinja2.
 Static: confinement of Nunavut's lexer/parser modifications to the `*` marker; shape of the two extensions.
 """
 import ast
+import copy
 import re
 
 try:
@@ -988,18 +989,39 @@ def rule_ext(ctx, px):
     uq = px.cls("nunavut.jinja.extensions", "UseQuery")
     up = uq.methods["parse"]
     uparam = [a.arg for a in up.node.args.args if a.arg != "self"][0]
-    tests = [n for n in ast.walk(up.node) if isinstance(n, ast.Assign) and any(isinstance(t, ast.Attribute) and t.attr == "test" for t in n.targets)]
-    ifs = [c for c in ast.walk(up.node) if isinstance(c, ast.Call) and ast.unparse(c.func).endswith("nodes.If")]
+    # the view the rule reads: private methods called as statements spelled out, class-level constants spelled as their values
+    consts = {}
+    for st in uq.node.body:
+        if isinstance(st, ast.Assign) and len(st.targets) == 1 and isinstance(st.targets[0], ast.Name):
+            consts[st.targets[0].id] = st.value
+
+    class _K(ast.NodeTransformer):
+        def visit_Attribute(self, node):
+            self.generic_visit(node)
+            if isinstance(node.ctx, ast.Load) and isinstance(node.value, ast.Name) and node.value.id in ("self", "cls", uq.name) and node.attr in consts:
+                return copy.deepcopy(consts[node.attr])
+            return node
+    upv = pyfront.inline_procedures(up.node, {}, suffix="", methods={k: v.node for k, v in uq.methods.items() if k != "parse"})
+    upv = _K().visit(upv)
+    ast.fix_missing_locations(upv)
+
+    def single(name):
+        vals = [n.value for n in ast.walk(upv) if isinstance(n, ast.Assign) and any(isinstance(t, ast.Name) and t.id == name for t in n.targets)]
+        return vals[0] if len(vals) == 1 else None
+
+    def through(e):
+        return single(e.id) if isinstance(e, ast.Name) else e
+    tests = [n for n in ast.walk(upv) if isinstance(n, ast.Assign) and any(isinstance(t, ast.Attribute) and t.attr == "test" for t in n.targets)]
+    ifs = [c for c in ast.walk(upv) if isinstance(c, ast.Call) and ast.unparse(c.func).endswith("nodes.If")]
     ok = bool(ifs) and len(tests) == 1 and isinstance(tests[0].value, ast.Call) and ast.unparse(tests[0].value.func) == "self.call_method" \
-        and len(tests[0].value.args) == 2 and all(isinstance(a, ast.Name) for a in tests[0].value.args)
+        and len(tests[0].value.args) == 2 and not tests[0].value.keywords
     ctx.ob(R, m.rel, "UseQuery.parse :: builds nodes.If with the query call as test", ok, "", up.node.lineno)
     negate = None
     ok2 = False
     if ok:
-        tname, aname = (a.id for a in tests[0].value.args)
-        tvals = [n.value for n in ast.walk(up.node) if isinstance(n, ast.Assign) and any(isinstance(t, ast.Name) and t.id == tname for t in n.targets)]
-        if len(tvals) == 1 and isinstance(tvals[0], ast.IfExp):
-            ie = tvals[0]
+        sel = through(tests[0].value.args[0])
+        if isinstance(sel, ast.IfExp):
+            ie = sel
             body = ie.body.value if isinstance(ie.body, ast.Constant) else None
             orelse = ie.orelse.value if isinstance(ie.orelse, ast.Constant) else None
             if isinstance(ie.test, ast.UnaryOp) and isinstance(ie.test.op, ast.Not) and isinstance(ie.test.operand, ast.Name):
@@ -1008,19 +1030,55 @@ def rule_ext(ctx, px):
             elif isinstance(ie.test, ast.Name):
                 negate = ie.test.id
                 ok2 = (body, orelse) == ("_use_nquery", "_use_query")
-        avals = [n.value for n in ast.walk(up.node) if isinstance(n, ast.Assign) and any(isinstance(t, ast.Name) and t.id == aname for t in n.targets)]
-        ok3 = len(avals) == 1 and isinstance(avals[0], ast.List) and avals[0].elts and ast.unparse(avals[0].elts[0]) == f"{uparam}.parse_expression()"
+        elif isinstance(sel, ast.Subscript) and isinstance(sel.value, ast.Dict) and isinstance(sel.slice, ast.Name) \
+                and all(isinstance(k_, ast.Constant) and isinstance(v_, ast.Constant) for k_, v_ in zip(sel.value.keys, sel.value.values)):
+            # a table from the negation flag to the method name
+            negate = sel.slice.id
+            tab = {k_.value: v_.value for k_, v_ in zip(sel.value.keys, sel.value.values)}
+            ok2 = len(tab) == 2 and tab.get(True) == "_use_nquery" and tab.get(False) == "_use_query" and all(isinstance(k_, bool) for k_ in tab)
+        qargs = through(tests[0].value.args[1])
+        ok3 = isinstance(qargs, ast.List) and bool(qargs.elts) and ast.unparse(qargs.elts[0]) == f"{uparam}.parse_expression()"
         ctx.ob(R, m.rel, "UseQuery.parse :: the query name is the parsed expression", ok3, "", up.node.lineno)
     ctx.ob(R, m.rel, "UseQuery.parse :: negated form selects _use_nquery", ok2, "", up.node.lineno)
     # negate state per tag
     tags = {}
-    for st, g in pyfront.walk_guarded(up.node.body):
-        if isinstance(st, ast.Assign) and isinstance(st.targets[0], ast.Name) and st.targets[0].id == negate:
-            tags.setdefault(ast.unparse(st.value), []).extend(e for e, p in pyfront.guard_terms(g) if p)
-    ok = any("ifnuses" in e for e in tags.get("True", [])) and any("elifnuses" in e for e in tags.get("True", [])) \
-        and any("elifuses" in e for e in tags.get("False", []))
-    ctx.ob(R, m.rel, "UseQuery.parse :: ifnuses/elifnuses negate, ifuses/elifuses do not", ok, str(tags), up.node.lineno)
-    rets = [r for r in ast.walk(up.node) if isinstance(r, ast.Return)]
+    unknown = []
+    for st, g in pyfront.walk_guarded(upv.body):
+        if isinstance(st, ast.Assign) and any(isinstance(t_, ast.Name) and t_.id == negate for t_ in st.targets):
+            v = st.value
+            if isinstance(v, ast.Constant) and isinstance(v.value, bool):
+                tags.setdefault(str(v.value), []).extend(e for e, p in pyfront.guard_terms(g) if p)
+            elif isinstance(v, ast.Call) and isinstance(v.func, ast.Attribute) and v.func.attr == "test" and len(v.args) == 1 and isinstance(v.args[0], ast.Constant):
+                # the flag is the tag test itself: set exactly for that tag
+                tags.setdefault("True", []).append(ast.unparse(v))
+            elif isinstance(v, ast.Call) and isinstance(v.func, ast.Name) and v.func.id == "next" and len(v.args) == 2 and isinstance(v.args[0], ast.GeneratorExp) \
+                    and isinstance(v.args[1], ast.Constant) and v.args[1].value is None:
+                # first entry of a literal (tag, flag) table whose tag the token is; None when it is none of them, which must leave
+                ge = v.args[0]
+                gen = ge.generators[0] if len(ge.generators) == 1 else None
+                good = gen is not None and isinstance(gen.target, ast.Tuple) and len(gen.target.elts) == 2 and all(isinstance(x, ast.Name) for x in gen.target.elts) \
+                    and isinstance(ge.elt, ast.Name) and ge.elt.id == gen.target.elts[1].id and len(gen.ifs) == 1 and isinstance(gen.ifs[0], ast.Call) \
+                    and isinstance(gen.ifs[0].func, ast.Attribute) and gen.ifs[0].func.attr == "test" and len(gen.ifs[0].args) == 1 \
+                    and isinstance(gen.ifs[0].args[0], ast.Name) and gen.ifs[0].args[0].id == gen.target.elts[0].id \
+                    and isinstance(gen.iter, (ast.Tuple, ast.List)) and all(isinstance(r_, ast.Tuple) and len(r_.elts) == 2 and isinstance(r_.elts[0], ast.Constant)
+                                                                              and isinstance(r_.elts[1], ast.Constant) and isinstance(r_.elts[1].value, bool) for r_ in gen.iter.elts)
+                leaves = any(isinstance(i_, ast.If) and ast.unparse(i_.test) == f"{negate} is None" and pyfront._always_exits(i_.body) for i_ in ast.walk(upv))
+                if good and leaves:
+                    seen_tags = set()
+                    for r_ in gen.iter.elts:
+                        if r_.elts[0].value in seen_tags:
+                            continue        # first match wins
+                        seen_tags.add(r_.elts[0].value)
+                        tags.setdefault(str(r_.elts[1].value), []).append(f"{ast.unparse(gen.ifs[0].func)}({r_.elts[0].value!r})")
+                else:
+                    unknown.append(ast.unparse(v))
+            else:
+                unknown.append(ast.unparse(v))
+    ok = not unknown and any("ifnuses" in e for e in tags.get("True", [])) and any("elifnuses" in e for e in tags.get("True", [])) \
+        and any("elifuses" in e for e in tags.get("False", [])) and not any("nuses" in e for e in tags.get("False", [])) \
+        and not any("ifuses" in e for e in tags.get("True", []))
+    ctx.ob(R, m.rel, "UseQuery.parse :: ifnuses/elifnuses negate, ifuses/elifuses do not", ok, str(tags) + (f" not understood: {unknown}" if unknown else ""), up.node.lineno)
+    rets = [r for r in ast.walk(upv) if isinstance(r, ast.Return)]
     ok = len(rets) == 1 and isinstance(rets[0].value, ast.Name)
     if ok:
         rn_ = rets[0].value.id
